@@ -15,7 +15,7 @@ LEVEL = "exploration"
 RULE = ("Hypothesis-generated watcher configurations (1-6 watchers on two instances and the class: any subset of a,b,c, "
         "value or slot (bounds/doc) watchers, onlychanged, queued, precedence 0-2, args/kwargs mode, scripted acyclic "
         "callbacks that assign) x programs (<=10 ops: set by attribute or single-key update, slot set, class-level set, "
-        "trigger, unwatch, re-watch) over an equality-trap value pool (0/1/True/1.0/NaN/None/str/bytes/Fraction/dates/"
+        "trigger, unwatch, re-watch, class-level sets through a subclass that inherits the parameters, with a class-level watcher registered and removed through that subclass) over an equality-trap value pool (0/1/True/1.0/NaN/None/str/bytes/Fraction/dates/"
         "nested containers/dict key order); oracle A = reference dispatcher, exact trace equality; oracle B = clause "
         "predicates when a queued scripted watcher runs. Non-trivial = an assignment reaches >=2 watchers of different "
         "precedence, or a callback cascades, or an equal-but-not-identical value meets a changes-only watcher, or a "
@@ -39,6 +39,8 @@ def _ops(fam):
         st.tuples(st.just("trigger"), st.integers(0, 2), st.lists(st.integers(0, 2), min_size=1, max_size=3, unique=True)),
         st.tuples(st.just("unwatch"), st.integers(0, 5)),
         st.tuples(st.just("rewatch"), st.integers(0, 5)),
+        # class-level assignment through a subclass that inherits the parameter
+        st.tuples(st.just("subset"), st.integers(0, 2), _val),
     )
 
 
@@ -63,6 +65,21 @@ def _case(draw):
                         if w.get(key) is not None and w[key] > k and w is not ws[k]:
                             w[key] += 1
     ops = draw(st.lists(_ops(fam), min_size=1, max_size=10))
+    if draw(st.integers(0, 2)) == 0:
+        # a class-level watcher that is registered (and later removed) through the subclass; whom the class / subclass
+        # assignments reach while it is registered is not claimed, only that it is never called once removed
+        ws.append({"target": 2, "names": sorted(draw(st.sets(st.integers(0, 2), min_size=1, max_size=2))), "what": "value",
+                   "onlychanged": False, "queued": False, "precedence": draw(st.integers(0, 2)), "mode": "args", "script": [],
+                   "via_subclass": True})
+        k = len(ws) - 1
+        ops = list(ops)
+        n0 = ws[k]["names"][0]
+        ops.insert(draw(st.integers(0, len(ops))), ("subset", n0, draw(val_strategy(fam))))
+        at = draw(st.integers(0, len(ops)))
+        ops.insert(at, ("unwatch", k + 6 * 100))           # (k + 600) % len(ws) == k whenever len(ws) divides 600: resolved below
+        ops[at] = ("unwatch_exact", k)
+        ops.insert(draw(st.integers(at + 1, len(ops))), ("set", 2, n0, draw(val_strategy(fam)), "attr"))
+        ops.insert(draw(st.integers(at + 1, len(ops))), ("subset", n0, draw(val_strategy(fam))))
     return {"fam": fam, "watchers": ws, "ops": [list(o) for o in ops]}
 
 
@@ -114,7 +131,7 @@ class Model:
         return tuple(self.value(t, n) for n in NAMES)
 
     def watchers_for(self, t, pname, what):
-        ws = [w for w in self.order if self.active[w] and self.specs[w]["target"] == t
+        ws = [w for w in self.order if self.active[w] and self.specs[w]["target"] == t and not self.specs[w].get("via_subclass")
               and self.specs[w]["what"] == what and pname in [PNAMES[i] for i in self.specs[w]["names"]]]
         if what == "value":
             ws = sorted(ws, key=lambda w: self.specs[w]["precedence"])    # stable: ties keep registration order
@@ -290,7 +307,19 @@ def execute(case):
                 world.targets[t].param.trigger(*names)
                 model.trigger(t, names)
                 res.label("trigger_run")
-            elif kind == "unwatch":
+            elif kind == "subset":
+                n, v = NAMES[op[1]], pool_value(op[2])
+                if any(sp["target"] == 2 and not sp.get("via_subclass") and (sp["script"] or sp.get("unwatch_on_call") is not None)
+                       for sp in specs):
+                    # whether the class's own watchers are reached by an assignment through the subclass is not claimed, so
+                    # they must not have effects of their own here
+                    res.dontcare += 1
+                    continue
+                setattr(world.W2, n, v)
+                res.label("class_level_set_through_subclass")
+                _removed_called(res, tag, world, model)
+                continue
+            elif kind in ("unwatch", "unwatch_exact"):
                 w = op[1] % len(specs)
                 if w in dup_related:
                     continue     # equal Watcher tuples cannot be told apart by unwatch: not exercised
@@ -315,7 +344,10 @@ def execute(case):
             break
         # the slot old value an instance sees may come from a lazily created copy: re-sync the model
         # slot values from reality only for instances (never used to judge a delivery already made)
-        real, want = world.trace, model.trace
+        _removed_called(res, tag, world, model)
+        via = {w for w, sp in enumerate(specs) if sp.get("via_subclass")}
+        real = [e for e in world.trace if not (e[0] in ("enter", "exit") and e[1] in via)]
+        want = model.trace
         if model.queued_scripted_ran:
             res.label("oracle_B")
             _oracle_b(res, tag, world, model, real, specs)
@@ -365,6 +397,15 @@ def execute(case):
         res.label(l)
     res.nontrivial = bool(model.labels & {"multi_precedence", "cascade", "equal_not_identical_skipped"}) or rewatched
     return res
+
+
+def _removed_called(res, tag, world, model):
+    """a watcher removed before an assignment is not called for it"""
+    for e in world.trace:
+        if e[0] == "enter" and not model.active[e[1]] and not model.unwatched_in_cb:
+            res.fail("C03.removed_watcher_called", f"{tag}: watcher w{e[1]} was removed before this assignment and was still called"
+                                                   f"\n   real : {_fmt(world.trace)}")
+            return
 
 
 def _has_copy(world, i):
